@@ -40,7 +40,9 @@ func check(prop, tier string) int {
 	switch prop {
 	case "C03", "C04", "C07", "C08":
 		code, err = rt.RunSeq(prop, tier)
-	case "C01", "C02", "C09", "C10", "C11", "C12", "C13", "C14", "C16", "C20":
+	case "C16":
+		code, err = gen.RunGen(prop, tier, cli.Subset(prop, tier, func(s cli.Scenario) bool { return s.Prior == "ownnoop" || (s.Prior == "own" && s.Args == "ok") }))
+	case "C01", "C02", "C09", "C10", "C11", "C12", "C13", "C14", "C20":
 		code, err = gen.RunGen(prop, tier)
 	case "C15":
 		code, err = cli.RunCLI(prop, tier, gen.ExtraC15(tier))
